@@ -4,7 +4,7 @@
 # seeded/RESULTS.txt. /repo itself is not touched. Usage: run_all_seeded_par.sh [N]
 N=${1:-4}
 cd /verif
-names=$(ls -d seeded/C*/ | xargs -n1 basename)
+names=${NAMES:-$(ls -d seeded/C*/ | xargs -n1 basename)}
 rm -rf /tmp/sp-*; mkdir -p /tmp/sp-out
 i=0
 for n in $names; do echo $n >> /tmp/sp-out/list.$((i % N)); i=$((i+1)); done
@@ -23,7 +23,7 @@ for k in $(seq 0 $((N-1))); do
   ) &
 done
 wait
-: > seeded/RESULTS.txt
-for n in $names; do cat /tmp/sp-out/$n.res >> seeded/RESULTS.txt; echo >> seeded/RESULTS.txt; done
-grep -c "rc=1" seeded/RESULTS.txt; grep "property=" seeded/RESULTS.txt | grep -v "rc=1"
+: > ${RESFILE:-seeded/RESULTS.txt}
+for n in $names; do cat /tmp/sp-out/$n.res >> ${RESFILE:-seeded/RESULTS.txt}; echo >> ${RESFILE:-seeded/RESULTS.txt}; done
+grep -c "rc=1" ${RESFILE:-seeded/RESULTS.txt}; grep "property=" ${RESFILE:-seeded/RESULTS.txt} | grep -v "rc=1"
 rm -rf /tmp/sp-out /tmp/sp-repo-* /tmp/sp-o-*
